@@ -182,6 +182,7 @@ type c08Run_ struct {
 	Ops     string       `json:"ops"`
 	I, J    int          // ops[:I] middleware before Next, ops[I:J] main handler, ops[J:] middleware after Next
 	Answers map[int]byte `json:"answers,omitempty"`
+	Redisp  bool         `json:"redispatch,omitempty"` // the main handler ends by re-dispatching the request with HandleContext
 }
 
 // one router per shard; the handlers read the run to perform from cur
@@ -195,7 +196,11 @@ type c08Harness struct {
 
 func newC08Harness() *c08Harness {
 	h := &c08Harness{r: rux.New(), req: httptest.NewRequest("GET", "/x", nil)}
+	h.r.GET("/y", func(c *rux.Context) { _, _ = c.Resp.Write([]byte("cd")) })
 	h.r.Use(func(c *rux.Context) {
+		if c.Req.URL.Path != "/x" {
+			return
+		}
 		run := h.cur
 		for k := 0; k < run.I; k++ {
 			c08Apply(c, run.Ops[k])
@@ -211,6 +216,10 @@ func newC08Harness() *c08Harness {
 		for k := run.I; k < run.J; k++ {
 			c08Apply(c, run.Ops[k])
 		}
+		if run.Redisp {
+			c.Req.URL.Path = "/y"
+			c.Router().HandleContext(c)
+		}
 	})
 	return h
 }
@@ -218,6 +227,7 @@ func newC08Harness() *c08Harness {
 func (h *c08Harness) exec(run *c08Run_) (w *recW, length, status int, sampled bool, pv any) {
 	w = &recW{h: http.Header{}, answers: run.Answers}
 	h.cur, h.sampled = run, false
+	h.req.URL.Path = "/x"
 	pv = try(func() { h.r.ServeHTTP(w, h.req) })
 	return w, h.length, h.status, h.sampled, pv
 }
@@ -228,6 +238,10 @@ func c08Check(h *c08Harness, run c08Run_, st *fw.Stats) *fw.Viol {
 	for k := 0; k < len(run.Ops); k++ {
 		m.apply(run.Ops[k])
 	}
+	if run.Redisp {
+		// the re-dispatched chain belongs to the same request: its write goes through the same single commit
+		m.write("cd")
+	}
 	wasCommitted := m.committed
 	lenBeforeEnd := m.length
 	if !m.panicked {
@@ -236,7 +250,7 @@ func c08Check(h *c08Harness, run c08Run_, st *fw.Stats) *fw.Viol {
 	w, length, status, sampled, pv := h.exec(&run)
 	desc := func() string {
 		return fmt.Sprintf("ops %q (middleware before Next: %q, main handler: %q, middleware after Next: %q), write answers %v [0-6=SetStatus(-1,0,100,200,201,404,500) h=SetHeader e=Write(\"\") w=Write(\"ab\") f=Flush E=http.Error(418) R=Redirect(302) T=Text(201)]",
-			run.Ops, run.Ops[:run.I], run.Ops[run.I:run.J], run.Ops[run.J:], fmtAnswers(run.Answers))
+			run.Ops, run.Ops[:run.I], run.Ops[run.I:run.J]+map[bool]string{true: " then HandleContext to a route writing \"cd\"", false: ""}[run.Redisp], run.Ops[run.J:], fmtAnswers(run.Answers))
 	}
 	if pv != nil && !m.panicked {
 		return &fw.Viol{Sig: "writer:panic", Msg: fmt.Sprintf("%s: ServeHTTP panicked: %v", desc(), pv)}
@@ -331,6 +345,9 @@ func c08RunCase(c c08Case, st *fw.Stats) []fw.Viol {
 			for _, sp := range splits {
 				try1(c08Run_{Ops: ops, I: sp[0], J: sp[1]})
 			}
+			// ... and with the main handler re-dispatching at its end (no operations after Next)
+			try1(c08Run_{Ops: ops, I: 0, J: d, Redisp: true})
+			try1(c08Run_{Ops: ops, I: d / 2, J: d, Redisp: true})
 			if c.Dev >= 1 {
 				for a := 0; a < nw; a++ {
 					for _, ka := range []byte{'s', 'e'} {
